@@ -1200,7 +1200,9 @@ class Ctx:
         if self.prss:
             mpc._program_counter[:] = [0, 0]
         seam.begin('seeded' if mode == 'seeded2' else mode, self.seed + (1 if mode == 'seeded2' else 0), script)
-        r = op.fn(*self.secure_args(op, inputs))
+        args = self.secure_args(op, inputs)
+        before = [dt.norm(self.sp.opened(mpc, a), False) if isinstance(a, mpc.SecureArray) else None for a in args]
+        r = op.fn(*args)
         if op.public:
             got = r.result() if hasattr(r, 'result') else r
         else:
@@ -1212,7 +1214,13 @@ class Ctx:
                 got = self.sp.opened(mpc, r)
             else:
                 got = r
-        return r, dt.norm(got, op.public), list(seam.log)
+        log = list(seam.log)
+        for j, a in enumerate(args):
+            # the operands belong to the caller: a secure array given to an operation still opens to the same values
+            if before[j] is not None and op.site not in MUTATING_SITES and dt.norm(self.sp.opened(mpc, a), False) != before[j]:
+                raise OperandChanged(f'operand {j} opens to {_show(dt.norm(self.sp.opened(mpc, a), False))} after the operation, '
+                                     f'it was {_show(before[j])}')
+        return r, dt.norm(got, op.public), log
 
     def scalar_oracle(self, op, inputs):
         seam, mpc, dt, np = self.seam, self.mpc, self.dt, self.np
@@ -1229,6 +1237,13 @@ class Ctx:
             vals = self.sp.opened(mpc, list(r.flat)) if r.size else []
             return ('A', tuple(r.shape), [dt._code(v, False) for v in vals])
         return ('A', (), [dt._code(self.sp.opened(mpc, r), False)])
+
+
+MUTATING_SITES = ('np_update',)        # a[key] = value is meant to change a
+
+
+class OperandChanged(Exception):
+    pass
 
 
 def _chk_all(dt, w):
@@ -1477,7 +1492,7 @@ def run_mp(job):
     from mc import exact
     from mc.explorer import run_execution
     part = Part()
-    m, t, no_prss, dtname = 3, 1, job['no_prss'], job['dt']
+    m, t, no_prss, dtname = job.get('m', 3), job.get('t', 1), job['no_prss'], job['dt']
     k = exact.sec_param_for(m, t, K_SP)
     world = exact.make_world(m, t, no_prss, k)
     seams = world.script_seams
@@ -1487,6 +1502,9 @@ def run_mp(job):
     ops = {o.name: o for o in build_ops(dt0)}
     cases = mp_cases(dt0, job['tier'])
     mine = cases[job['part']::job['parts']]
+    if job.get('wide'):
+        # many parties: an array mask is a sum of C(m,t) PRF outputs and its bound must shrink accordingly (all-max pattern)
+        mine = [c for c in cases if any(w in c[0] for w in ('np_less', 'np_equal', 'np_maximum', 'np_sort', 'np_multiply'))][:24]
     cfg = f"mp/{dtname}/m{m}t{t}{'-noprss' if no_prss else ''}/k{k}"
     program = make_mp_program(dtname)
 
@@ -1543,7 +1561,7 @@ def run_mp(job):
     for lo in range(0, len(mine), batch):
         chunk = mine[lo:lo + batch]
         passed = {}
-        for pat in ('seeded', 'max', 'zero'):
+        for pat in (('max', 'seeded') if job.get('wide') else ('seeded', 'max', 'zero')):
             ok, status, results = execute(chunk, pat)
             if ok:
                 for i, (name, inputs) in enumerate(chunk):
@@ -1581,14 +1599,15 @@ def _np():
 
 def run_iszero(job):
     """np_equal takes the probabilistic path _np_is_zero when l/2 > k >= 8 and p = 3 mod 4: always right for equal entries,
-    wrong for unequal ones only if all k quadratic-residue coins agree (2^-k = 2^-16 per entry: excluded event)."""
+    wrong for unequal ones only if all k quadratic-residue coins agree (2^-k per entry, by design): run at a production-size
+    k = 30 so that the seeded runs never meet that event."""
     from mc import sp
     part = Part()
-    mpc, seam = sp.setup(sec_param=16, no_prss=True)
+    mpc, seam = sp.setup(sec_param=30, no_prss=True)
     np = _np()
-    T = mpc.SecInt(34)
+    T = mpc.SecInt(64)
     assert T.field.order % 4 == 3
-    vals = [0, 1, -1, 2, 3, 255, -256, 2 ** 33 - 1, -2 ** 33, 12345, -54321, 2 ** 17]
+    vals = [0, 1, -1, 2, 3, 255, -256, 2 ** 62 - 1, -2 ** 62, 12345, -54321, 2 ** 40]
     for shape in ((), (1,), (3,), (2, 2), (2, 1, 2)):
         n = 1
         for d in shape:
@@ -1994,6 +2013,7 @@ def jobs(tier, seed):
             for p in range(parts):
                 out.append(dict(engine='mp', dt=dtn, no_prss=no_prss, part=p, parts=parts, tier=tier, seed=seed))
     out.append(dict(engine='iszero', tier=tier, seed=seed))
+    out.append(dict(engine='mp', dt='int', no_prss=False, part=0, parts=1, tier=tier, seed=seed, m=7, t=3, wide=True))
     out.append(dict(engine='ffa', fields=FFA_FIELDS[:3], tier=tier, seed=seed))
     out.append(dict(engine='ffa', fields=FFA_FIELDS[3:], tier=tier, seed=seed))
     out.append(dict(engine='thresha', fields=['GF(5)', 'GF(4)'], tier=tier, seed=seed))
